@@ -323,7 +323,7 @@ func newMPCase(ver string, pool int, async bool) (*mpCase, error) {
 	} else {
 		m.mp = mempoolv1.NewTxMempool(log.NewNopLogger(), conf, mconn, 0)
 	}
-	st, err := sm.MakeGenesisState(mkGenDoc())
+	st, err := sm.MakeGenesisState(mkGenDoc(1))
 	if err != nil {
 		return nil, err
 	}
